@@ -280,6 +280,29 @@ class SymEx:
             raise HarnessBug("close() on booleans")
         return [P.sub(x, y)]
 
+    def equal(self, a, b, label, scale=None):
+        """Exact identity a == b between rational expressions: the difference is multiplied
+        through by the denominators of all its inverse atoms (each asserted non-zero by the
+        atom's own axiom), leaving a polynomial identity for the solver."""
+        d = P.sub(a, b)
+        if not isinstance(d, SymReal):
+            return self._prove(abs(d) <= 1e-12, label, detail='concrete %r' % d)
+        num, dens = P.clear_inverses(SymReal(d.p))
+        if not num.p:
+            self.c.ex.stats.queries['unsat'] += 1
+            self.claims.append(Claim(label, 'held', 'identity after clearing denominators'))
+            return True
+        nz = num.z3()
+        # polynomial identities are nlsat's home ground: one-shot solver first
+        r, m = self.c.check_fresh(nz != 0)
+        if r == 'unsat':
+            self.claims.append(Claim(label, 'held', 'one-shot'))
+            return True
+        if r == 'sat':
+            self.claims.append(Claim(label, 'cand', 'identity fails', self._model(m)))
+            return False
+        return self._prove(nz == 0, label)
+
     def le(self, a, b, label, tol=1e-9):
         """a <= b + tol  elementwise."""
         fa, fb = _flat(a), _flat(b)
@@ -487,6 +510,9 @@ class ConEx:
             return self._rec(False, label, 'got %r want %r (|d|=%g)' % (
                 a_.ravel()[i], b_.ravel()[i], d.ravel()[i]))
         return self._rec(True, label)
+
+    def equal(self, a, b, label, scale=None):
+        return self.close(a, b, label, tol=1e-9 if scale is None else 1e-9 * scale, rtol=1e-6)
 
     def le(self, a, b, label, tol=1e-9):
         a_ = np.asarray(a, dtype=float)
